@@ -23,6 +23,8 @@ pub enum Entry {
     Absent,
     FetchErr,
     File { bytes: Arc<Vec<u8>>, endless: bool, fail: u64 },
+    /// explicit item list: Some(bytes) = chunk, None = transport error
+    Stream { items: Arc<Vec<Option<Vec<u8>>>>, endless: bool },
 }
 
 #[derive(Clone, Debug, Default)]
@@ -37,12 +39,33 @@ pub struct Mem {
 impl Transport for Mem {
     async fn fetch(&self, url: Url) -> Result<TS, TransportError> {
         let path = url.path().to_string();
-        let name = path.strip_prefix(&self.prefix).unwrap_or(&path).to_string();
+        let name = match path.strip_prefix(&self.prefix) {
+            Some(n) => n.to_string(),
+            // target files: keep the /targets/ prefix, undo the percent-encoding Url::join applied
+            None => percent_decode(&path),
+        };
         self.log.lock().unwrap().push(name.clone());
         let entry = self.files.lock().unwrap().get(&name).cloned().unwrap_or(Entry::Absent);
         match entry {
             Entry::Absent => Err(TransportError::new(TransportErrorKind::FileNotFound, url)),
             Entry::FetchErr => Err(TransportError::new(TransportErrorKind::Other, url)),
+            Entry::Stream { items, endless } => {
+                let u = url.clone();
+                let v: Vec<Result<Bytes, TransportError>> = items
+                    .iter()
+                    .map(|it| match it {
+                        Some(b) => Ok(Bytes::copy_from_slice(b)),
+                        None => Err(TransportError::new(TransportErrorKind::Other, u.clone())),
+                    })
+                    .collect();
+                if endless {
+                    let block = Bytes::from(vec![b'x'; 4096]);
+                    return Ok(futures::stream::iter(v)
+                        .chain(futures::stream::repeat_with(move || Ok(block.clone())))
+                        .boxed());
+                }
+                Ok(futures::stream::iter(v).boxed())
+            }
             Entry::File { bytes, endless, fail } => {
                 if fail == 1 || fail == 2 {
                     let kind = if fail == 1 { TransportErrorKind::Other } else { TransportErrorKind::FileNotFound };
@@ -64,6 +87,24 @@ impl Transport for Mem {
             }
         }
     }
+}
+
+pub fn percent_decode(s: &str) -> String {
+    let b = s.as_bytes();
+    let mut out = Vec::new();
+    let mut i = 0;
+    while i < b.len() {
+        if b[i] == b'%' && i + 2 < b.len() + 0 && i + 2 <= b.len() - 1 + 0 {
+            if let Ok(v) = u8::from_str_radix(&s[i + 1..i + 3], 16) {
+                out.push(v);
+                i += 3;
+                continue;
+            }
+        }
+        out.push(b[i]);
+        i += 1;
+    }
+    String::from_utf8_lossy(&out).to_string()
 }
 
 pub fn role_num(r: RoleType) -> u64 {
@@ -120,6 +161,10 @@ pub fn classify(e: &TE) -> Value {
         | TE::DatastoreRemove { .. }
         | TE::DatastoreSerialize { .. }
         | TE::DatastoreInit { .. } => json!([15, 0]),
+        TE::CacheTargetMissing { .. } => json!([20, 0]),
+        TE::SaveTargetNoParent { .. } => json!([21, 0]),
+        TE::SaveTargetUnsafePath { .. } => json!([22, 0]),
+        TE::SaveTargetNotFound { .. } => json!([23, 0]),
         other => json!([900, of_str(&format!("{other:?}").chars().take(120).collect::<String>())]),
     }
 }
@@ -198,6 +243,16 @@ pub fn run(rt: &tokio::runtime::Runtime, pool: &KeyPool, sc: &Value) -> Value {
                 }
             }
         }
+        let mut abs_tsrv = Vec::new();
+        let mut htable = Vec::new();
+        let model_ok = cy["model_targets"].as_bool().unwrap_or(true);
+        for tf in list(&cy["targets_files"]) {
+            let name = tf["name"].as_str().unwrap().to_string();
+            let (entry, abs, table) = target_entry(&mut b, tf, model_ok);
+            files.insert(format!("/targets/{name}"), entry);
+            abs_tsrv.push(json!([tfile_tree(&mut b, &name), abs]));
+            htable.extend(table);
+        }
         let lim = &cy["limits"];
         let d = Limits::default();
         let limits = Limits {
@@ -211,13 +266,17 @@ pub fn run(rt: &tokio::runtime::Runtime, pool: &KeyPool, sc: &Value) -> Value {
         let now = cy["now"].as_i64().unwrap_or(0);
         let shipped = b.build(cy["shipped"].as_str().unwrap());
         let fuel = cy["fuel"].as_u64().unwrap_or(64);
+        let model_cycle_index = model_cycles.len();
         model_cycles.push(json!([
             [limits.max_root_size, limits.max_targets_size, limits.max_timestamp_size,
              limits.max_snapshot_size, limits.max_root_updates, of_bool(enforce), fuel],
             shipped.abs.clone(),
             abs_server,
             z_tree(now),
-            []
+            [],
+            abs_tsrv,
+            [],
+            htable
         ]));
         // run the implementation
         let mem = Mem {
@@ -238,20 +297,35 @@ pub fn run(rt: &tokio::runtime::Runtime, pool: &KeyPool, sc: &Value) -> Value {
         .datastore(ds.path())
         .expiration_enforcement(if enforce { ExpirationEnforcement::Safe } else { ExpirationEnforcement::Unsafe });
         let res = rt.block_on(async { tokio::time::timeout(std::time::Duration::from_secs(20), loader.load()).await });
+        let mut ops_results = Vec::new();
         let r = match res {
             Err(_) => json!([901, 0]),
-            Ok(Ok(repo)) => json!([
-                0,
-                repo.root().signed.version.get(),
-                repo.timestamp().signed.version.get(),
-                repo.snapshot().signed.version.get(),
-                repo.targets().signed.version.get()
-            ]),
+            Ok(Ok(repo)) => {
+                let r = json!([
+                    0,
+                    repo.root().signed.version.get(),
+                    repo.timestamp().signed.version.get(),
+                    repo.snapshot().signed.version.get(),
+                    repo.targets().signed.version.get()
+                ]);
+                let nlog = mem.log.lock().unwrap().len();
+                let o = run_ops(rt, &repo, &mem, list(&cy["ops"]), model_ok);
+                ops_results = o.results;
+                for r in ops_results.iter_mut() {
+                    if r[0] == json!(1) {
+                        let name = string(&r[1]);
+                        r[1] = tfile_tree(&mut b, &name);
+                    }
+                }
+                model_cycles[model_cycle_index][6] = Value::Array(o.model_ops);
+                mem.log.lock().unwrap().truncate(nlog);
+                r
+            }
             Ok(Err(e)) => classify(&e),
         };
         let log: Vec<Value> = mem.log.lock().unwrap().iter().map(|s| of_str(s)).collect();
         let store = ds_summary(ds.path());
-        impl_results.push(json!([r, log, store]));
+        impl_results.push(json!([r, log, store, ops_results]));
     }
     tough::verif_hooks::set_clock_offset_secs(0);
     json!([impl_results, [6, 0, sc["fixes"].clone(), model_cycles]])
@@ -307,4 +381,227 @@ pub fn ds_summary(ds: &std::path::Path) -> Value {
         stored_summary(ds, "snapshot.json"),
         stored_summary(ds, "targets.json")
     ])
+}
+
+// ------------------------------------------------------------------------------------------------
+// operations on a loaded repository
+
+fn item_bytes(v: &Value) -> Vec<u8> {
+    match v {
+        Value::String(s) => s.as_bytes().to_vec(),
+        Value::Array(_) => bytes(v),
+        other => {
+            let byte = other["byte"].as_u64().unwrap_or(120) as u8;
+            vec![byte; other["repeat"].as_u64().unwrap_or(0) as usize]
+        }
+    }
+}
+
+/// {"name", "items": [chunk | null], "endless"} | "absent" | "fetch_err"  ->  (entry, model tserved, hash table entries)
+pub fn target_entry(b: &mut Builder<'_>, spec: &Value, model_ok: bool) -> (Entry, Value, Vec<Value>) {
+    match spec {
+        Value::String(s) if s == "absent" => (Entry::Absent, json!([0]), vec![]),
+        Value::String(_) => (Entry::FetchErr, json!([1]), vec![]),
+        _ => {
+            let items: Vec<Option<Vec<u8>>> = list(&spec["items"])
+                .iter()
+                .map(|x| if x.is_null() { None } else { Some(item_bytes(x)) })
+                .collect();
+            let mut abs_items = Vec::new();
+            let mut table = Vec::new();
+            if model_ok {
+                let mut acc: Vec<u8> = Vec::new();
+                let h0 = sha256hex(&acc);
+                table.push(json!([of_bytes(&acc), b.digest_id(&h0)]));
+                for it in &items {
+                    match it {
+                        Some(x) => {
+                            abs_items.push(json!([0, of_bytes(x)]));
+                            acc.extend_from_slice(x);
+                            let h = sha256hex(&acc);
+                            table.push(json!([of_bytes(&acc), b.digest_id(&h)]));
+                        }
+                        None => abs_items.push(json!([1])),
+                    }
+                }
+            }
+            (
+                Entry::Stream { items: Arc::new(items), endless: spec["endless"].as_bool().unwrap_or(false) },
+                json!([2, abs_items]),
+                table,
+            )
+        }
+    }
+}
+
+/// server file name -> model tfile [digest_opt, name]
+pub fn tfile_tree(b: &mut Builder<'_>, name: &str) -> Value {
+    let bytes = name.as_bytes();
+    if bytes.len() > 65 && bytes[64] == b'.' && bytes[..64].iter().all(|c| c.is_ascii_hexdigit()) {
+        let id = b.digest_id(&name[..64].to_string());
+        json!([[id], of_str(&name[65..])])
+    } else {
+        json!([[], of_str(name)])
+    }
+}
+
+pub fn tname_tree(raw: &str) -> Option<(tough::TargetName, Value)> {
+    let tn = tough::TargetName::new(raw).ok()?;
+    let resolved = tn.resolved().to_string();
+    let t = json!([of_str(raw), of_str(&resolved), of_str(&sha256hex(resolved.as_bytes()))]);
+    Some((tn, t))
+}
+
+fn walk_files(root: &std::path::Path, dir: &std::path::Path, out: &mut Vec<(Vec<String>, Vec<u8>)>) {
+    if let Ok(rd) = std::fs::read_dir(dir) {
+        for e in rd.flatten() {
+            let p = e.path();
+            let ft = e.file_type().unwrap();
+            if ft.is_dir() {
+                walk_files(root, &p, out);
+            } else {
+                let rel: Vec<String> = p
+                    .strip_prefix(root)
+                    .unwrap()
+                    .components()
+                    .map(|c| c.as_os_str().to_string_lossy().to_string())
+                    .collect();
+                out.push((rel, std::fs::read(&p).unwrap_or_default()));
+            }
+        }
+    }
+}
+
+/// lists every file below the sentinel directory; paths inside outdir are given relative to it,
+/// anything else is flagged with a leading "<OUTSIDE>" component
+pub fn listing(sentinel: &std::path::Path, outdir_name: &str) -> Value {
+    let mut v = Vec::new();
+    walk_files(sentinel, sentinel, &mut v);
+    v.sort();
+    Value::Array(
+        v.into_iter()
+            .map(|(mut rel, content)| {
+                if rel.first().map(|s| s.as_str()) == Some(outdir_name) {
+                    rel.remove(0);
+                } else {
+                    rel.insert(0, "<OUTSIDE>".to_string());
+                }
+                json!([rel.iter().map(|c| of_str(c)).collect::<Vec<_>>(), of_bytes(&content)])
+            })
+            .collect(),
+    )
+}
+
+pub struct OpsOut {
+    pub results: Vec<Value>,
+    pub model_ops: Vec<Value>,
+}
+
+pub fn run_ops(rt: &tokio::runtime::Runtime, repo: &tough::Repository, mem: &Mem, ops: &[Value], model_ok: bool) -> OpsOut {
+    use futures::StreamExt;
+    let sentinel = scratch_dir("out");
+    let outdir = sentinel.path().join("outdir");
+    std::fs::create_dir_all(&outdir).unwrap();
+    let mut results = Vec::new();
+    let mut model_ops = Vec::new();
+    for op in ops {
+        let kind = op["op"].as_str().unwrap_or("read");
+        let now = op["now"].as_i64().unwrap_or(0);
+        tough::verif_hooks::set_clock_offset_secs(now);
+        if kind == "put" {
+            let comps: Vec<String> = list(&op["path"]).iter().map(|c| c.as_str().unwrap().to_string()).collect();
+            let mut p = outdir.clone();
+            for c in &comps {
+                p = p.join(c);
+            }
+            std::fs::create_dir_all(p.parent().unwrap()).unwrap();
+            let content = item_bytes(&op["content"]);
+            std::fs::write(&p, &content).unwrap();
+            results.push(json!([4]));
+            model_ops.push(json!([2, comps.iter().map(|c| of_str(c)).collect::<Vec<_>>(), of_bytes(&content)]));
+            continue;
+        }
+        let raw = op["name"].as_str().unwrap();
+        let (tn, tn_tree) = match tname_tree(raw) {
+            Some(x) => x,
+            None => {
+                results.push(json!([5]));
+                model_ops.push(json!([9]));
+                continue;
+            }
+        };
+        let before = mem.log.lock().unwrap().len();
+        if kind == "read" {
+            model_ops.push(json!([0, tn_tree, z_tree(now)]));
+            let r = rt.block_on(async {
+                match repo.read_target(&tn).await {
+                    Err(e) => classify_op(&e),
+                    Ok(None) => json!([0]),
+                    Ok(Some(mut stream)) => {
+                        let mut delivered: Vec<u8> = Vec::new();
+                        let mut ok = true;
+                        let mut kind = 0;
+                        let mut count = 0u64;
+                        while let Some(item) = stream.next().await {
+                            match item {
+                                Ok(b) => {
+                                    delivered.extend_from_slice(&b);
+                                    count += 1;
+                                    if count > 100_000 {
+                                        ok = false;
+                                        kind = 9;
+                                        break;
+                                    }
+                                }
+                                Err(e) => {
+                                    ok = false;
+                                    let c = classify(&e);
+                                    kind = match (c[0].as_u64(), c[1].as_u64()) {
+                                        (Some(4), Some(2)) => 2,
+                                        (Some(4), Some(3)) => 3,
+                                        _ => 1,
+                                    };
+                                    break;
+                                }
+                            }
+                        }
+                        json!([1, [], of_bytes(&delivered), of_bool(ok), kind])
+                    }
+                }
+            });
+            let mut r = r;
+            if r[0] == json!(1) {
+                let log = mem.log.lock().unwrap();
+                let req = log.get(before).cloned().unwrap_or_default();
+                r[1] = of_str(req.strip_prefix("/targets/").unwrap_or(&req));
+            }
+            results.push(r);
+        } else {
+            let prefix = op["prefix"].as_bool().unwrap_or(false);
+            model_ops.push(json!([1, tn_tree, of_bool(prefix), z_tree(now)]));
+            let res = rt.block_on(async {
+                tokio::time::timeout(
+                    std::time::Duration::from_secs(20),
+                    repo.save_target(&tn, &outdir, if prefix { tough::Prefix::Digest } else { tough::Prefix::None }),
+                )
+                .await
+            });
+            let code = match res {
+                Err(_) => json!([901, 0]),
+                Ok(Ok(())) => json!([0]),
+                Ok(Err(e)) => {
+                    let c = classify(&e);
+                    if c[0] == json!(4) { json!([4, 9]) } else { c }
+                }
+            };
+            results.push(json!([3, code, listing(sentinel.path(), "outdir")]));
+        }
+    }
+    tough::verif_hooks::set_clock_offset_secs(0);
+    OpsOut { results, model_ops }
+}
+
+fn classify_op(e: &TE) -> Value {
+    let c = classify(e);
+    json!([2, c[0].clone(), c[1].clone()])
 }
